@@ -62,6 +62,7 @@ def gen_shape(rng, depth, allow_enum=True, weights=None, codec_safe=False):
     if allow_enum and rng.random() < 0.08:
         return Sh('E')
     n = rng.choice([1, 2, 2, 3, 3, 4, 5, 6])
+    if rng.random() < 0.05: n = rng.choice([10, 11, 13, 17])          # two-digit field indices / variant tags
     fs = []
     for _ in range(n):
         opts = ['Pi', 'Pi', 'Po', 'Pe', 'K', 'K', 'L', 'U', 'M']
